@@ -175,9 +175,9 @@ class TermRule(BaseRule):
         s.ts["loops"] = s.ts.get("loops", ()) + (I,)
         if isinstance(stmt.target, (ast.Tuple, ast.List)):
             n = len(stmt.target.elts)
-            it.assign(s, stmt.target, AV("tuple", tuple(tv(f"each{i}({I})", none=False) for i in range(n)), truth=True, none=False))
+            it.assign(s, stmt.target, AV("tuple", tuple(tv(T(f"each{i}", I)) for i in range(n)), truth=True, none=False))
         else:
-            it.assign(s, stmt.target, tv(T("each", I), none=False))
+            it.assign(s, stmt.target, tv(T("each", I)))
         return [(s, True), (st.copy(), False)]
 
     def comprehension(self, it, st, node):
@@ -190,16 +190,30 @@ class TermRule(BaseRule):
             I = term_of(itv)
             s = s0.copy()
             it.assign(s, g.target, tv(T("each", I), none=False))
-            conds = []
-            for c in g.ifs:
-                cv, _ = it.eval(s, c)
-                conds.append(term_of(cv[0][1]) if len(cv) == 1 else "?")
+            conds = [self.cond_term(it, s, c) for c in g.ifs]
             ev_, _ = it.eval(s, node.elt)
             if len(ev_) != 1:
                 return None
             kind = {ast.GeneratorExp: "gen", ast.ListComp: "listcomp", ast.SetComp: "setcomp"}[type(node)]
             return [(s0, tv(T(kind, term_of(ev_[0][1]), I, *conds), none=False))], list(raises)
         return None
+
+    def cond_term(self, it, st, e):
+        """A filter condition as a term (no forking): cmp:<op>(a, b), not(c), and(..)/or(..), truthy(x)."""
+        if isinstance(e, ast.UnaryOp) and isinstance(e.op, ast.Not):
+            return T("not", self.cond_term(it, st, e.operand))
+        if isinstance(e, ast.BoolOp):
+            return T("and" if isinstance(e.op, ast.And) else "or", *[self.cond_term(it, st, v) for v in e.values])
+        if isinstance(e, ast.Compare) and len(e.ops) == 1:
+            opn = {ast.Is: "is", ast.IsNot: "isnot", ast.Eq: "eq", ast.NotEq: "ne", ast.In: "in", ast.NotIn: "notin", ast.Lt: "lt", ast.LtE: "le", ast.Gt: "gt", ast.GtE: "ge"}.get(type(e.ops[0]), "cmp")
+            lv, _ = it.eval(st, e.left)
+            rv, _ = it.eval(st, e.comparators[0])
+            return T("cmp:" + opn, term_of(lv[0][1]) if lv else "?", term_of(rv[0][1]) if rv else "?")
+        if isinstance(e, ast.Call) and isinstance(e.func, ast.Name) and e.func.id == "isinstance" and len(e.args) == 2:
+            lv, _ = it.eval(st, e.args[0])
+            return T("isinstance", term_of(lv[0][1]) if lv else "?", ast.unparse(e.args[1]))
+        vals, _ = it.eval(st, e)
+        return T("truthy", term_of(vals[0][1]) if len(vals) == 1 else "?")
 
     def _list_builder(self, it, st, node, recv, pos):
         """append/extend/insert on a local list whose content is known: the variable is re-bound to the longer list term."""
